@@ -72,7 +72,10 @@ def main():
         for seed, r in ex.map(lambda s: run_one(s, tier, workers), seeds):
             res[seed] = r
             print(seed, json.dumps(r)[:400], flush=True)
-            json.dump(res, open(rp, "w"), indent=1, sort_keys=True)
+            # merge into the file as it is now: several matrix runs may be going at once
+            cur = json.load(open(rp)) if os.path.exists(rp) else {}
+            cur[seed] = r
+            json.dump(cur, open(rp, "w"), indent=1, sort_keys=True)
     subprocess.run(["git", "-C", "/repo", "worktree", "prune"], capture_output=True)
 
 
